@@ -436,7 +436,16 @@ func MergeFuncUpdateCgroup(resource ResourceUpdater, mergeCondition MergeConditi
 	klog.V(6).Infof("merge update cgroup %v with merged value[%v], original new[%v], old[%v]",
 		c.Path(), mergedValue, c.value, oldStr)
 	// suppose current value is different
-	return resource, cgroupFileWrite(c.parentDir, c.file, mergedValue)
+	if err = cgroupFileWrite(c.parentDir, c.file, mergedValue); err != nil {
+		return resource, err
+	}
+	// The file now holds the MERGED value, which may differ from the new value (a cpuset is merged into the union of
+	// the old and the new one). Return an updater carrying what has been written, as the no-merge branch above does:
+	// the caller records the returned updater as the last written value, and recording the new value here would
+	// make LeveledUpdateBatch skip the final write of the new value, leaving the file at the merged one.
+	merged := resource.Clone().(*CgroupResourceUpdater)
+	merged.value = mergedValue
+	return merged, nil
 }
 
 // MergeConditionIfValueIsLarger returns a merge condition where only do update when the new value is larger.
